@@ -26,7 +26,9 @@ type DescC19 struct {
 	HasSub  bool           `json:"has_sub"`
 	SubNum  byte           `json:"sub_num"`
 	SubExp  byte           `json:"sub_expected"`
-	Rest    ref.SpliceDesc `json:"rest"`    // other fields, varied freely
+	Adj     uint64         `json:"pts_adjustment,omitempty"` // the signal time is split into pts_time + pts_adjustment this way (signals with a PTS)
+	Cancel  bool           `json:"cancel,omitempty"`         // segmentation_event_cancel_indicator set through the API (a decoded cancelled descriptor carries no type)
+	Rest    ref.SpliceDesc `json:"rest"`                     // other fields, varied freely
 	Decoded bool           `json:"decoded"` // build by decoding a reference encoding instead of the creation API
 }
 
@@ -56,11 +58,15 @@ func genDescC19(t *rapid.T, label string, like *DescC19) DescC19 {
 		d.SubExp = byte(rapid.IntRange(0, 1).Draw(t, label+"-subexp"))
 	}
 	d.Decoded = rapid.Bool().Draw(t, label+"-decoded")
+	if rapid.IntRange(0, 2).Draw(t, label+"-adjusted") == 0 {
+		d.Adj = rapid.SampledFrom([]uint64{1, 999, 1000, 1001, 1 << 32, 1<<33 - 1}).Draw(t, label+"-adj")
+	}
+	d.Cancel = !d.Decoded && rapid.IntRange(0, 5).Draw(t, label+"-cancel") == 0
 	if like != nil && rapid.IntRange(0, 1).Draw(t, label+"-like") == 0 {
 		// mostly equal to another descriptor, differing in at most one compared attribute
-		rest, dec := d.Rest, d.Decoded
+		rest, dec, adj, cancel := d.Rest, d.Decoded, d.Adj, d.Cancel
 		d = *like
-		d.Rest, d.Decoded = rest, dec
+		d.Rest, d.Decoded, d.Adj, d.Cancel = rest, dec, adj, cancel
 		switch rapid.IntRange(0, 8).Draw(t, label+"-differ") {
 		case 0:
 			d.Event++
@@ -98,13 +104,14 @@ func c19Build(d *DescC19) (scte35.SegmentationDescriptor, *hx.Failure) {
 	w.Type, w.Event, w.Num, w.Expected = d.Type, d.Event, d.Num, d.Exp
 	w.HasSub = d.HasSub && (d.Type == 0x34 || d.Type == 0x36)
 	w.SubNum, w.SubExpected = d.SubNum, d.SubExp
-	w.Cancel = false
+	w.Cancel = d.Cancel && !d.Decoded
 	if over := len(w.Bytes()) - 2 - 255; over > 0 && len(w.UPID) >= over {
 		w.UPID = w.UPID[:len(w.UPID)-over] // descriptor_length is one byte
 	}
 	m := ref.Splice{TableID: 0xFC, Tier: 0xFFF, Descs: []ref.SpliceDesc{w}}
 	if d.HasPTS {
-		m.Cmd, m.TSHasPTS, m.TSPTS = 0x06, true, d.PTS
+		m.Cmd, m.TSHasPTS, m.TSPTS = 0x06, true, (d.PTS-d.Adj)&m33
+		m.Adj = d.Adj & m33
 	} else {
 		m.Cmd = 0x00
 		m.Adj = d.PTS // a splice_null has no PTS whatever its adjustment
@@ -241,7 +248,7 @@ func descKey(d *DescC19) string {
 var propC19 = hx.Register(hx.Prop[CaseC19]{ID: "C19", Gen: genC19, Check: checkC19})
 
 func c19Rule() {
-	hx.Rec("C19").SetRule("rapid cases: three descriptors (named or arbitrary type, event id in 1..3, signal with PTS in {1000,2000,2^33-1} or without PTS, segment number/expected in 0..2, sub-segment fields for 0x34/0x36), the second and third derived from the first with at most one compared attribute changed half of the time, ALL other descriptor fields drawn freely (flags, components, duration, UPID/MID), each realised either through the creation API or by decoding a reference encoding; CanClose on all 9 ordered pairs vs the hand-transcribed rule table (also with the argument wrapped in a decorator type that embeds the interface), IsIn/IsOut vs the documented lists, Equal vs its definition, symmetry, transitivity and congruence on the triple. Enumerated: all 256x256 type pairs x event-equal x PTS-equal x (segment number = expected) x incoming has sub-segments (65536 x 16), IsIn/IsOut for all 256 types, and all ordered pairs of a 720-descriptor family for the equality laws. Non-trivial: a pair with a table entry, or an equal pair.",
+	hx.Rec("C19").SetRule("rapid cases: three descriptors (named or arbitrary type, event id in 1..3, signal with PTS in {1000,2000,2^33-1} or without PTS, segment number/expected in 0..2, sub-segment fields for 0x34/0x36), the second and third derived from the first with at most one compared attribute changed half of the time, ALL other descriptor fields drawn freely (flags, components, duration, UPID/MID, the cancel indicator on API-built ones, the split of the signal time into pts_time + pts_adjustment), each realised either through the creation API or by decoding a reference encoding; CanClose on all 9 ordered pairs vs the hand-transcribed rule table (also with the argument wrapped in a decorator type that embeds the interface), IsIn/IsOut vs the documented lists, Equal vs its definition, symmetry, transitivity and congruence on the triple. Enumerated: all 256x256 type pairs x event-equal x PTS-equal x (segment number = expected) x incoming has sub-segments (65536 x 16), IsIn/IsOut for all 256 types, and all ordered pairs of a 720-descriptor family for the equality laws. Non-trivial: a pair with a table entry, or an equal pair.",
 		"the rule table is a transcription of the pinned commit's documented rules (the property is defined relative to it)",
 		"the DiffPTS rule is only asserted when both signals carry a PTS")
 }
